@@ -6,7 +6,17 @@ TECH = "bounded symbolic execution of the real functions from go/ssa (own SSA->S
 NOTE_COMMON = " Trusted base: the executor's operational model of Go (maps, channels, select, scheduler at sync-op granularity), the environment contracts listed in the evidence file (time as an int64 clock, sync, atomic, fmt, regexp unrolling), z3 4.8.12. Bounded: nothing outside the bounds in the evidence is claimed."
 CLAIMED = {
  "C12": ("One inductive step of NewGUID from ANY generator state and clock reading (error => state unchanged; success => id > lastID and recorded), k consecutive calls under an arbitrary monotone clock, field non-overlap, Hex injectivity/charset: all decided by the solver for every 64-bit value; counterexamples replayed natively. Bounded model checking, no unbounded claim.",
-         "Clock readings limited to the 41-bit timestamp field's range (to ~2085); concurrency on the factory is reduced to the mutex contract (Lock/Unlock bracket the step); GenerateID's sleep/retry loop is not a liveness claim.", "5 (C12)"),
+         "Clock readings limited to the 41-bit timestamp field's range (2013..2080); concurrency on the factory is reduced to the mutex contract (Lock/Unlock bracket the step); GenerateID's sleep/retry loop is not a liveness claim.", "5 (C12)"),
+ "C07": ("Solver-decided round trips of the real encoders/decoders for every timestamp/attempts/id/body within the bound: decodeMessage(WriteTo(m)) == m, decodeMessage on any buffer, writeMessageToBackend hands the backend exactly the encoding with pooled-buffer reuse, SendFramedResponse size/type/data; PUB/DPUB/MPUB store exactly the bytes after the length prefix (shared with C09).",
+         "Bodies up to 4 (quick) / 12 (thorough) bytes; TLS/snappy/deflate transforms, disk queue files and the HTTP text-mpub splitter are outside this check (the latter is planned under C10).", "5 (C07)"),
+ "C04": ("Inductive one-iteration lemma of the decimal parser's loop from an arbitrary loop-head state (so numbers of any length, 'far beyond 64 bits' included), DPUB range/exactness for every uint64 delay with the parser replaced by its lemma-checked contract, TOUCH cap min(now+T, delivered+max-msg-timeout) and the timeout/deferred scans (never early, exactly the due entries, heaps stay valid) from any valid channel state with symbolic deadlines and scan instant.",
+         "max-req-timeout case-split over {0, 1 ms, 1 h, 2^40 ms}; channel states up to 3 in-flight / 3 deferred messages (4 thorough); 'delivered soon after' (queueScanLoop's random selection, ticker periods) and deferred messages that overflowed to disk are outside.", "5 (C04)"),
+ "C02": ("One consumer answer (FIN/REQ/TOUCH through the real protocol handlers) from ANY valid channel state built through the real insertion code (symbolic ids, owners, deadlines; 0-2 in flight, 0-1 deferred, 0-1 queued; 3/1/1 thorough): accepted iff in flight and held by the answering connection, else the documented non-fatal E_*_FAILED with no change to any store, deadline or counter; post-conditions of FIN (in no store), REQ (exactly one of queue/deferred, delay = min(requested, max)), TOUCH; heap/map representation invariant re-established after every operation.",
+         "Step-wise (inductive over the invariant), not whole histories; interleavings of answers with the timeout scan and the delivery pump are not yet covered by this check; attempts counting in the delivery pump is outside.", "5 (C02)"),
+ "C09": ("The real Exec/PUB/DPUB/MPUB/RDY/state handlers over symbolic wire bytes: PUB/DPUB with any topic bytes, any 4-byte size and any following bytes (accept iff valid, exactly one message = the bytes on the wire, exactly prefix+body consumed, no allocation above max-msg-size before refusal); MPUB all-or-nothing with the batch bounded by max-body-size; name rule == documented rule for every string <= 12/16 bytes (regexp unrolled from the source literal); RDY range for every uint64; out-of-state / malformed commands fatal E_INVALID; no panic; every Exec error implements ChildErr.",
+         "max-msg-size 3 / max-body-size 14 and streams up to 10/20 bytes (config constants chosen small, sizes symbolic); IDENTIFY option ranges, AUTH, SUB success path, TLS and heartbeats are not covered here; 'other clients unaffected' is reduced to panic-freedom of the per-connection handlers.", "5 (C09)"),
+ "C15": ("nsqlookupd's real IOLoop over any ASCII byte stream up to 6/8 bytes, IDENTIFY with any 4-byte size and following bytes (never panics, nonsense sizes/truncated/undecodable bodies are fatal E_BAD_BODY and register nothing), required-field check via the json contract model, and for every command of a second connection (any keyword/params/state): registrations of the first connection intact, documented error code, no panic.",
+         "Bytes >= 0x80 in the command line (std UTF-8 path) and allocations above 6 bytes are cut as outside the claim (an oversized allocation preceding the refusal is not flagged); HTTP handlers are covered under C14; encoding/json is a contract model.", "5 (C15)"),
 }
 NA_REASON = "no check registered yet in this build of /verif (solver-based harness not written or not yet clean on the unchanged tree); see DESIGN.md section 5 for the planned encoding"
 props = [json.loads(l) for l in open(os.path.join(V, "properties.jsonl"))]
